@@ -116,7 +116,7 @@ class ProblemRec:
         self.emit(e)
         return len(self.insts)
 
-    def eval(self, inst, y, fid="obj", reuse=False):
+    def eval(self, inst, y, fid="obj", reuse=False, holder="fresh"):
         fam, member, p = self.insts[inst - 1]
         if p is None:
             return None
@@ -131,6 +131,12 @@ class ProblemRec:
             arr = np.array(y, dtype=np.double)
             pt = Point(arr, [])
         fv = FunctionValue() if fid == "obj" else FunctionValue(FunctionType.CONSTRAINT, fid)
+        if holder == "prefilled":
+            fv.value = 123.456                   # a holder that already carries a value (e.g. from an earlier evaluation)
+        elif holder == "reused":
+            key = (inst, str(fid))
+            self.holders = getattr(self, "holders", {})
+            fv = self.holders.setdefault(key, fv)     # one holder object per (instance, function), used again and again
         before = [float(t) for t in arr]
         try:
             r = p.Calculate(pt, fv)
